@@ -1081,7 +1081,11 @@ func c51ManagerScenario(rt *rapid.T, c *ev.Collector) {
 		// single owner and (the CA validating every challenge) a single order.
 		// (ECDSA and RSA issuances for one name run independently and may disturb
 		// each other's tls-alpn-01 token, which costs extra orders; not asserted.)
-		if n > 1 && len(requestedTypes[d]) <= 1 && !due[d] && !due[d+"+rsa"] {
+		inUniverse := false
+		for _, a := range ascii {
+			inUniverse = inUniverse || a == d
+		}
+		if n > 1 && inUniverse && len(requestedTypes[d]) <= 1 && !due[d] && !due[d+"+rsa"] {
 			rt.Fatalf("VF-VIOLATION: property=C51 %d orders were started for %q although every request asked for the same key type; concurrent requests for one name must share one issuance [batches=%v]", n, d, c51BatchSizes(sc.Batches))
 		}
 	}
